@@ -54,6 +54,9 @@ def bo_graph(rng):
     for s in g.segs:
         if rng.random() < 0.08:
             s["BO"], s["NO"] = -1, -1
+        if rng.random() < 0.25:
+            # further user tags after the rGFA ones, including lower-case look-alikes of the tags sort reads
+            s["extra"] = rng.sample(["bo:i:99", "no:i:7", "sn:Z:other", "sr:i:3", "XT:Z:a:b c", "x1:i:-5"], rng.randint(1, 3))
     return g
 
 
